@@ -26,4 +26,5 @@ func init() {
 	register("C01", "exploration", C01)
 	register("C02", "exploration", C02)
 	register("C09", "exploration", C09)
+	register("C03", "exploration", C03)
 }
